@@ -13,7 +13,7 @@ from props import c02_oracle, c02_run
 
 ID = 'C02'
 PROPERTY_FILE = 'C02/Property.v'
-PROPERTY_FILES = ['C02/Property.v', 'C02/PropertyReentrant.v']
+PROPERTY_FILES = ['C02/Property.v', 'C02/PropertyReentrant.v', 'C02/PropertySync.v']
 LEVEL = 'other'
 ALLOWED_AXIOMS = ()
 TRUSTED_BASE = [
